@@ -58,6 +58,34 @@ def replay_state(chk, st, cplx):
     check(lp.poly2rc, (poly.copy(), P), k, 'poly2rc')
     check(lp.rc2poly, (k.copy(), r0), (poly, P), 'rc2poly')
     check(lp.rc2ac, (k.copy(), r0), r.astype(complex), 'rc2ac')
+    # the same parameter sets written the way one types them: python sequences in which every number has the narrowest
+    # python type that holds it (0 for an exactly zero coefficient, 0.5 for a real one next to complex ones, ...)
+    def narrow(v):
+        out = []
+        for z in np.asarray(v).ravel():
+            z = complex(z)
+            if z.imag == 0 and z.real == int(z.real):
+                out.append(int(z.real))
+            elif z.imag == 0:
+                out.append(float(z.real))
+            else:
+                out.append(z)
+        return out
+    cntn = getattr(chk, '_c11_narrow', 0)
+    chk._c11_narrow = cntn + 1
+    seq = (list, tuple)[cntn % 2]
+    check(lp.rc2poly, (seq(narrow(k)), r0), (poly, P), 'rc2poly(sequence)')
+    check(lp.rc2ac, (seq(narrow(k)), r0), r.astype(complex), 'rc2ac(sequence)')
+    check(lp.poly2rc, (seq(narrow(poly)), P), k, 'poly2rc(sequence)')
+    check(lp.ac2rc, (seq(narrow(r)),), (k, r0), 'ac2rc(sequence)')
+    check(lp.ac2poly, (seq(narrow(r)),), (poly, P), 'ac2poly(sequence)')
+    # a white process: every reflection coefficient is exactly zero (typed as it is written), any zero lag
+    if cntn % 16 == 0:
+        for order in (1, 2, 3):
+            for z0 in (2.5, 0.3):
+                for zeros in ([0] * order, np.zeros(order, dtype=int), [0.0] * order):
+                    check(lp.rc2poly, (zeros, z0), (np.concatenate(([1.0], np.zeros(order))), z0), 'rc2poly(white)')
+                    check(lp.rc2ac, (zeros, z0), np.concatenate(([z0], np.zeros(order))).astype(complex), 'rc2ac(white)')
     chk.replayed += 1
     chk.count('linpred-' + mode, 'replayed')
     if len(st['A']) == 3:
